@@ -431,6 +431,20 @@ theorem C19_element_accepted_iff_specializes_when_bounds_checked (hchk : element
   rw [Bool.eq_iff_iff, h, hc]
   simp
 
+/-- regenerated tie: `check_type` compares the bounds of an element aggregate (fixes/C19-7; established by executing
+`bounds_conform` on a table).  Does not build on a tree without the comparison. -/
+theorem C19_tie_element_bounds_checked : elementBoundsChecked = true := rfl
+
+/-- regenerated tie: ARRAY, LIST, BAG and SET define `__contains__` in the modelled form (fixes/C19-8), so
+`C19_membership_refines` speaks about the runtime.  Does not build on a tree without it. -/
+theorem C19_tie_membership_defined : membershipDefined = true := rfl
+
+/-- An element aggregate is accepted for a declared aggregate element type **exactly** when EXPRESS lets it stand for that
+type (same kind and base type at every level, conforming bounds at every level) — on the tree as it is. -/
+theorem C19_element_accepted_iff_specializes (x : BTy) (k : Kind) (lo : Int) (hi : Option Int) (b : BTy) :
+    elementAccepted x (.agg k lo hi b) = specializes x (.agg k lo hi b) :=
+  C19_element_accepted_iff_specializes_when_bounds_checked C19_tie_element_bounds_checked x k lo hi b
+
 /-! ## the EXPRESS built-in functions (Builtin.py) -/
 
 def specFn : BFn → BuiltinFn
